@@ -30,7 +30,7 @@ typedef struct lltd_verif_iface_view {
     uint32_t see_listed;
 } lltd_verif_iface_view;
 int lltd_verif_iface_view_get(void *iface_ctx, lltd_verif_iface_view *out, uint8_t (*see)[18], size_t cap);
-#define SNAP_CAP 320
+#define SNAP_CAP 1100
 static uint8_t snap_see[SNAP_CAP][18];
 
 static FILE *tr;
